@@ -168,7 +168,15 @@ def query(sp, name, args):
         keys = sorted(d.keys())
         if keys != list("ACDEFGHIKLMNPQRSTVWY"):
             return ("exc", "BadKeys", str(keys))
-        return ("vec", [float(d[k]) for k in keys])
+        res = ("vec", [float(d[k]) for k in keys])
+        try:
+            # the returned dictionary is the caller's own: editing it must not reach the library
+            d["A"] = "0.04%"
+            del d["C"]
+            d["X"] = 1.0
+        except Exception:
+            pass
+        return res
     if name == "kd":
         return num(sp.get_mean_hydropathy())
     if name == "uversky":
